@@ -131,17 +131,22 @@ def _shard(args):
     def test(case):
       if state['t_fail'] is not None and time.monotonic() - state['t_fail'] > shrink_budget:
         return  # shrink budget used up: the best failure so far is kept
-      verdict = execute(mod, case)
-      st.record(case, verdict)
-      if verdict['status'] == 'violation':
-        e = findings.match(mod, entries, case, verdict)
-        if e is not None:
-          st.known[e['id']] += 1
-          return
-        if state['t_fail'] is None:
-          state['t_fail'] = time.monotonic()
-        state['best'] = (case, verdict)
-        raise AssertionError(verdict['kind'])
+      # a module may expand one generated case into an enumeration of sub-cases (fault
+      # enumeration: one config -> every injection point); each sub-case is evaluated, counted
+      # and, on failure, saved as a stand-alone replayable case
+      subs = mod.expand(case) if hasattr(mod, 'expand') else [case]
+      for sub in subs:
+        verdict = execute(mod, sub)
+        st.record(sub, verdict)
+        if verdict['status'] == 'violation':
+          e = findings.match(mod, entries, sub, verdict)
+          if e is not None:
+            st.known[e['id']] += 1
+            continue
+          if state['t_fail'] is None:
+            state['t_fail'] = time.monotonic()
+          state['best'] = (sub, verdict)
+          raise AssertionError(verdict['kind'])
 
     try:
       test()
